@@ -21,8 +21,12 @@ type C04Case struct {
 
 func GenC04() *rapid.Generator[C04Case] {
 	fam := genFamily(2, pick(12, 24))
+	bigFam := genFamily(2, 150)
 	return rapid.Custom(func(t *rapid.T) C04Case {
 		f := fam.Draw(t, "family")
+		if rapid.IntRange(0, 59).Draw(t, "big lineage") == 31 {
+			f = bigFam.Draw(t, "big family") // genomes of up to a few hundred genes
+		}
 		c := C04Case{P1: f[0], P2: f[1], Method: rapid.SampledFrom(mateKinds).Draw(t, "method"), Seed: int64(rapid.IntRange(0, 1<<30).Draw(t, "seed"))}
 		if rapid.IntRange(0, 9).Draw(t, "identical parents") == 0 {
 			c.P2 = c.P1
